@@ -12,7 +12,7 @@ Three groups of obligations, all on the halmos source of VERIF_REPO_SRC:
    of `str(m.result)`.  Unrecognised AST shape => inconclusive.  Counterexamples are replayed on the real
    run_test / _main (scripted stub solver) before they may become violations.
 2. Route P (CrossHair, lib/c05_chx_harness.py): the real SolverOutput.from_result / from_error with symbolic stdout
-   (<= 8 characters, <= 12 in thorough), stderr and return code: unsat only for an exact first line "unsat", sat only for
+   (<= 8 characters; thorough also first line <= 7 + tail <= 4), stderr and return code: unsat only for an exact first line "unsat", sat only for
    "sat...", unknown only for "unknown", everything else "err" carrying stderr; from_error is always "err".
    Each condition has a reachability twin; counterexamples are replayed under /venv/bin/python.
 3. The real run_test / run_contract / _main with a SCRIPTED STUB SOLVER (lib/c05_e2e.py): hand-assembled contracts
@@ -54,9 +54,9 @@ KEY_SHUTDOWN = "early-exit/stuck-confirmation/ShutdownError"
 
 CHX_QUICK = ["unsat_only_exact_8", "sat_only_prefix_8", "unknown_only_exact_8", "non_unsat_cache_8",
              "err_else_8", "unsat_tail_6", "from_error_is_err", "from_error_default_rc"]
-CHX_THOROUGH = CHX_QUICK + ["err_keeps_stderr_8", "classify_8", "head_tail_4", "classify_12", "unsat_cache_tail_2"]
+CHX_THOROUGH = CHX_QUICK + ["err_keeps_stderr_8", "classify_8", "head_tail_4"]
 CHX_REACH = ["reach_unsat", "reach_sat", "reach_unknown", "reach_err_nonempty"]
-CHX_COST = {"classify_12": 900, "classify_8": 150, "head_tail_4": 105, "unsat_cache_tail_2": 200,
+CHX_COST = {"classify_8": 150, "head_tail_4": 105, "err_else_8": 35,
             "err_keeps_stderr_8": 65, "non_unsat_cache_8": 45, "unsat_only_exact_8": 28, "sat_only_prefix_8": 25,
             "unknown_only_exact_8": 27, "unsat_tail_6": 6}
 
@@ -350,10 +350,7 @@ def route_p_start(run, tier, tmpdir, jobs):
         groups.append([c, t])
     for n in CHX_REACH:
         groups.append(conds[n])
-    timeout = 420 if tier == "thorough" else 150
-    for g in groups:
-        if isinstance(g, list) and g[0].name == "classify_12":
-            g[0].timeout = 1200
+    timeout = 900 if tier == "thorough" else 200
 
     def work():
         try:
@@ -923,8 +920,10 @@ def main(run):
     run.bounds = {
         "route_A": "unbounded non-negative integer counts (sat, err, unknown, unsat, len(stuck), normal); any number of "
                    "contracts (induction over the contract loop of _main)",
-        "route_P": "stdout <= 8 characters (thorough: also <= 12, head <= 7 + tail <= 4), stderr <= 4 characters, "
-                   "any int return code; --cache-solver on: first line != 'unsat' (all) and 'unsat\\n' + <= 2 characters",
+        "route_P": "stdout <= 8 characters (thorough: also first line <= 7 + tail <= 4 characters), stderr <= 4 "
+                   "characters, any int return code; --cache-solver on only for outputs whose first line is not 'unsat' "
+                   "(the unsat-core regex of the unsat branch is beyond CrossHair: 'Not confirmed' even for a 1-character "
+                   "tail; that branch is exercised concretely in part 3)",
         "part_3": f"{n_e2e} scripted run_test scenarios with <= {'4' if tier == 'thorough' else '2'} paths + {n_main} "
                   f"_main scenarios (enumerated/seeded, VERIF_SEED={run.seed}); replies "
                   f"{list(CE.REPLIES_CORE) + (list(CE.REPLIES_EXTRA) if tier == 'thorough' else [])}; completion orders "
